@@ -1128,6 +1128,78 @@ func c20Spaces(c *fw.Ctx) {
 			}
 		})
 
+	// More RDATA that only the wire can carry and the unpacker accepts: an SVCB "mandatory" list whose keys are not
+	// in ascending order, type bitmaps with a window block longer than needed (trailing zero octets).
+	c.Space("wire-only-lists", "records unpacked from non-canonical RDATA that Unpack accepts: SVCB / HTTPS with mandatory = {alpn,port} written in both key orders (plus the parameters themselves), NSEC / CSYNC / NSEC3 type bitmaps for {A, MX} with window lengths 2, 3 and 32 (trailing zero octets): all ordered pairs per family, IsDuplicate exactly when the RDATA octets are equal; non-trivial: all", true,
+		func(emit func(func(*fw.R))) {
+			type item struct {
+				typ   uint16
+				desc  string
+				rdata []byte
+			}
+			var fams [][]item
+			for _, t := range []uint16{dns.TypeSVCB, dns.TypeHTTPS} {
+				tail := []byte{0, 1, 0, 3, 2, 'h', '2', 0, 3, 0, 2, 0x20, 0xfb} // alpn=h2 port=8443
+				fams = append(fams, []item{
+					{t, "mandatory=alpn,port", append([]byte{0, 1, 0, 0, 0, 0, 4, 0, 1, 0, 3}, tail...)},
+					{t, "mandatory=port,alpn (keys not ascending)", append([]byte{0, 1, 0, 0, 0, 0, 4, 0, 3, 0, 1}, tail...)},
+				})
+			}
+			bm := func(n int) []byte { // window 0, n octets: A (bit 1) and MX (bit 15)
+				b := make([]byte, 2+n)
+				b[0], b[1] = 0, byte(n)
+				b[2], b[3] = 0x40, 0x01
+				return b
+			}
+			for _, t := range []uint16{dns.TypeNSEC, dns.TypeCSYNC, dns.TypeNSEC3} {
+				var f []item
+				for _, n := range []int{2, 3, 32} {
+					var pre []byte
+					switch t {
+					case dns.TypeNSEC:
+						pre = []byte{1, 'n', 0}
+					case dns.TypeCSYNC:
+						pre = []byte{0, 0, 0, 7, 0, 3}
+					case dns.TypeNSEC3:
+						pre = append([]byte{1, 0, 0, 1, 0, 20}, make([]byte, 20)...)
+					}
+					f = append(f, item{t, fmt.Sprintf("bitmap window 0 of %d octets", n), append(pre, bm(n)...)})
+				}
+				fams = append(fams, f)
+			}
+			for _, fam := range fams {
+				fam := fam
+				emit(func(r *fw.R) {
+					r.Nontrivial()
+					mk := func(it item) dns.RR {
+						w := append([]byte{1, 'a', 0, byte(it.typ >> 8), byte(it.typ), 0, 1, 0, 0, 0, 5, byte(len(it.rdata) >> 8), byte(len(it.rdata))}, it.rdata...)
+						rr, _, err := dns.UnpackRR(w, 0)
+						if err != nil {
+							return nil
+						}
+						return rr
+					}
+					for _, x := range fam {
+						a := mk(x)
+						if a == nil {
+							r.Count("not accepted by Unpack: "+x.desc, 1)
+							continue
+						}
+						for _, y := range fam {
+							b := mk(y)
+							if b == nil {
+								continue
+							}
+							want := bytes.Equal(x.rdata, y.rdata)
+							if got := dns.IsDuplicate(a, b); got != want {
+								r.Fail("wire/"+dns.TypeToString[x.typ]+"/non-canonical-list", "IsDuplicate = %v for %s records from the wire with RDATA %x (%s) and %x (%s)", got, dns.TypeToString[x.typ], x.rdata, x.desc, y.rdata, y.desc)
+							}
+						}
+					}
+				})
+			}
+		})
+
 	c.Space("xtype", "all ordered pairs of base records of all types (same owner, class, TTL), built and from the wire: duplicates exactly when the types are equal; one case per first type, all are non-trivial", true,
 		func(emit func(func(*fw.R))) {
 			for i := range all {
